@@ -546,6 +546,7 @@ def run(tier: str, seed: int) -> int:
                            'unchecked': 'correspondence Lean model <-> implementation (conn driver module: layouts, derived, composite)',
                            'first_difference': json.loads(json.dumps(disagreements[0], default=str)),
                            'disagreements': len(disagreements)}, found=False)
+    sem = common.pysem_stage(oc, PROP, ['conn'], seed, tier)
     if not proof_ok:
         # which table entry fails? the driver evaluates the theorem's predicate layer by layer on the generated tables
         bad = []
@@ -578,6 +579,7 @@ def run(tier: str, seed: int) -> int:
         'trusted_base': common.TRUSTED_BASE,
         'theorems': lean.get('theorems', []),
         'axioms': lean.get('axioms', {}),
+        **sem,
         'evaluations': evaluations,
         'distinct_nontrivial': len(nontrivial),
         'rule': RULE,
